@@ -225,6 +225,7 @@ pub fn run_shard(spec: &CheckSpec, fam_name: &str, tier: &str, seed: u64, shard:
     let avail = exec::available_levels();
     let gctx = GenCtx { tier_thorough: tier == "thorough", avail: &GEN_LEVELS };
     let Some(fam) = spec.families.iter().find(|f| f.name == fam_name) else { return 2 };
+    crate::guard::install_fatal_handlers(Some(&format!("{stopfile}.crash.{shard}")));
     let mut res = ShardResult { digests: vec![], agg: Agg::default(), found: None, harness: None, samples: vec![] };
     let fam2 = fam.clone();
     // big stack: copy_wide has a 64 KiB frame and single-task plans run on this thread
@@ -242,6 +243,7 @@ pub fn run_shard(spec: &CheckSpec, fam_name: &str, tier: &str, seed: u64, shard:
                         break;
                     }
                     k += 1;
+                    crate::guard::CUR_RUN.store(i, Ordering::Relaxed);
                     let plan = (fam2.gen)(seed, i, &gctx);
                     let (out, v, levels) = judge_plan(&plan, fam2.judge, &avail);
                     if let Some(h) = &out.harness_error {
@@ -400,12 +402,34 @@ pub fn run_check(spec: &CheckSpec, cfg: &RunCfg) -> i32 {
                         found.lock().unwrap().push(f);
                     }
                 }
+                (None, Some(code)) if code == crate::guard::EXIT_MEMFAULT => {
+                    // native code faulted: the shard's signal handler left a crash record
+                    let mut rec = String::new();
+                    for k in 0..cfg.jobs {
+                        if let Ok(t) = std::fs::read_to_string(format!("{}.crash.{}", stopfile.display(), k)) {
+                            if t.contains("MEMFAULT") {
+                                rec = t;
+                                break;
+                            }
+                        }
+                    }
+                    let num = |key: &str| -> u64 { rec.split(key).nth(1).and_then(|x| x.split_whitespace().next()).and_then(|x| x.parse().ok()).unwrap_or(0) };
+                    let i = num("run=");
+                    let plan = (fam.gen)(cfg.seed, i, &gctx);
+                    let (ti, oi) = (num("task=") as usize, num("op=") as usize);
+                    let kind = plan.tasks.get(ti).and_then(|t| t.ops.get(oi)).map_or("", |o| o.kind()).to_string();
+                    let v = Violation { property: spec.prop.into(), class: "memory-fault".into(), task: ti, op: oi, op_kind: kind, detail: rec.trim().to_string() };
+                    found.lock().unwrap().push(Found { fam: fi, i, plan, violation: v, recorded: vec![], levels: vec![] });
+                }
                 (None, code) => {
                     *harness.lock().unwrap() = Some(format!("shard of family {} died without a result (exit {:?})", fam.name, code));
                 }
             }
         }
         let _ = std::fs::remove_file(&stopfile);
+        for k in 0..cfg.jobs {
+            let _ = std::fs::remove_file(format!("{}.crash.{}", stopfile.display(), k));
+        }
         println!("  family {:<16} runs={:<9} {:.1}s", fam.name, done_runs, ft0.elapsed().as_secs_f64());
         if !found.lock().unwrap().is_empty() || harness.lock().unwrap().is_some() {
             stop.store(true, Ordering::Relaxed);
@@ -422,6 +446,14 @@ pub fn run_check(spec: &CheckSpec, cfg: &RunCfg) -> i32 {
     let mut violations = 0;
     let mut exit = 0;
     let mut known_lines = Vec::new();
+    // listed known findings with a demonstration: still there? (run without the call-site slack)
+    for (what, rp) in crate::known::demonstrations(spec.prop) {
+        let path = verif_dir().join(&rp);
+        let st = std::process::Command::new(std::env::current_exe().unwrap()).arg("replay").arg(&path).arg("--quiet").env("B3SIM_NO_KNOWN_SLACK", "1").stderr(std::process::Stdio::null()).status();
+        if matches!(st, Ok(s) if s.code() == Some(1)) {
+            known_lines.push(format!("KNOWN-FINDING: property={} {} (replay: {})", spec.prop, what, rp));
+        }
+    }
     if let Some(f) = found.into_iter().next() {
         let fam = &spec.families[f.fam];
         println!("violation candidate: family={} run={} class={} op={}#{} :: {}", fam.name, f.i, f.violation.class, f.violation.op_kind, f.violation.op, f.violation.detail);
@@ -440,9 +472,12 @@ pub fn run_check(spec: &CheckSpec, cfg: &RunCfg) -> i32 {
         // does a replay file reproduce in a FRESH process?
         let fresh = |rf: &ReplayFile| -> bool {
             std::fs::write(&tmp_path, serde_json::to_string(rf).unwrap()).expect("write tmp replay");
-            let st = std::process::Command::new(std::env::current_exe().unwrap()).arg("replay").arg(&tmp_path).arg("--quiet").status();
+            let st = std::process::Command::new(std::env::current_exe().unwrap()).arg("replay").arg(&tmp_path).arg("--quiet").stderr(std::process::Stdio::null()).status();
             matches!(st, Ok(s) if s.code() == Some(1))
         };
+        // plans with guard-placed buffers are always judged in child processes: a violation there may well
+        // end in a fatal signal, which must not take the coordinating process down
+        let is_memfault = f.violation.class == "memory-fault" || f.plan.cfg.guard_alloc;
         let mk = |plan: &Plan, v: &Violation, prelude: Vec<Plan>, levels: Vec<Level>, trace: u64| ReplayFile {
             property: spec.prop.to_string(),
             engine: engine.to_string(),
@@ -458,7 +493,12 @@ pub fn run_check(spec: &CheckSpec, cfg: &RunCfg) -> i32 {
         let alone = mk(&f.plan, &f.violation, vec![], f.levels.clone(), 0);
         let (small, v, out_trace, levels);
         if fresh(&alone) {
+            let fv = f.violation.clone();
             let mut test = |p: &Plan| -> Option<Violation> {
+                if is_memfault {
+                    // the process dies with the fault: every candidate runs in its own process
+                    return if fresh(&mk(p, &fv, vec![], vec![], 0)) { Some(fv.clone()) } else { None };
+                }
                 let (out, v, _) = judge_plan(p, judge, &avail2);
                 if out.harness_error.is_some() {
                     return None;
@@ -466,14 +506,21 @@ pub fn run_check(spec: &CheckSpec, cfg: &RunCfg) -> i32 {
                 v
             };
             let (mut sm, v0) = shrink::shrink(&f.plan, &f.recorded, &class, &mut test, Duration::from_secs(if thorough { 60 } else { 30 }));
-            let (out, v2, lv) = judge_plan(&sm, judge, &avail);
-            if matches!(sm.schedule, Schedule::Gen { .. }) {
-                sm.schedule = Schedule::Explicit { choices: out.sched.choices.clone() };
+            if is_memfault {
+                small = sm;
+                v = v0;
+                out_trace = 0;
+                levels = vec![];
+            } else {
+                let (out, v2, lv) = judge_plan(&sm, judge, &avail);
+                if matches!(sm.schedule, Schedule::Gen { .. }) {
+                    sm.schedule = Schedule::Explicit { choices: out.sched.choices.clone() };
+                }
+                small = sm;
+                v = v2.unwrap_or(v0);
+                out_trace = out.trace_digest();
+                levels = lv;
             }
-            small = sm;
-            v = v2.unwrap_or(v0);
-            out_trace = out.trace_digest();
-            levels = lv;
         } else {
             // 2. the violation depends on what the process did before (state the library keeps across
             // calls): replay the shard's earlier runs as a prelude, then minimise the prelude.
@@ -658,6 +705,39 @@ pub fn replay(path: &str, quiet: bool) -> i32 {
             return 2;
         }
     };
+    if (rf.violation.class == "memory-fault" || rf.plan.cfg.guard_alloc) && std::env::var_os("B3SIM_REPLAY_INNER").is_none() {
+        // the replay is expected to die with a fatal signal: run it in a child and report what happened
+        let st = std::process::Command::new(std::env::current_exe().unwrap()).arg("replay").arg(path).arg("--quiet").env("B3SIM_REPLAY_INNER", "1").status();
+        return match st {
+            Ok(s) if s.code() == Some(crate::guard::EXIT_MEMFAULT) => {
+                if !quiet {
+                    println!("replayed: native code faulted again (fatal signal while executing the recorded operation)");
+                    println!("VIOLATION property={} replay={}", rf.property, path);
+                }
+                1
+            }
+            Ok(s) if s.code() == Some(1) => {
+                if !quiet {
+                    println!("replayed: the recorded memory-safety violation occurred again");
+                    println!("VIOLATION property={} replay={}", rf.property, path);
+                }
+                1
+            }
+            Ok(s) if s.code() == Some(0) => {
+                if !quiet {
+                    println!("replay did not reproduce: no fault on this tree");
+                }
+                0
+            }
+            other => {
+                if !quiet {
+                    println!("replay ended unexpectedly: {:?}", other);
+                }
+                3
+            }
+        };
+    }
+    crate::guard::install_fatal_handlers(None);
     let avail = exec::available_levels();
     // history first: runs whose only role is the state they leave behind in the process
     for p in &rf.prelude {
@@ -668,8 +748,9 @@ pub fn replay(path: &str, quiet: bool) -> i32 {
         eprintln!("HARNESS ERROR: {h}");
         return 2;
     }
+    let memsafe = |c: &str| matches!(c, "memory-fault" | "canary" | "register-clobber");
     match v {
-        Some(v) if v.class == rf.violation.class => {
+        Some(v) if v.class == rf.violation.class || (memsafe(&v.class) && memsafe(&rf.violation.class)) => {
             if !quiet {
                 println!("replayed: class={} task={} op={}#{} :: {}", v.class, v.task, v.op_kind, v.op, v.detail);
                 println!("trace_digest={:016x} (recorded {})", out.trace_digest(), rf.trace_digest);
@@ -692,64 +773,94 @@ pub fn replay(path: &str, quiet: bool) -> i32 {
     }
 }
 
-/// determinism self-test: every plan executed twice in-process gives identical trace digests
+/// determinism self-test: every plan executed twice gives identical trace digests, the recorded
+/// schedule replays, and the result does not depend on how many worker processes share the work.
+/// Like the search, one process runs one simulation at a time (the C dispatcher state is process-global).
 pub fn selftest_determinism(spec_list: &[CheckSpec], seeds: u64, jobs: usize) -> i32 {
-    let avail = exec::available_levels();
-    let gctx = GenCtx { tier_thorough: false, avail: &GEN_LEVELS };
-    let bad = AtomicU64::new(0);
-    let mut all = Fnv::default();
-    for spec in spec_list {
-        for fam in &spec.families {
-            let digests: Mutex<BTreeMap<u64, u64>> = Mutex::new(BTreeMap::new());
-            let next = AtomicU64::new(0);
-            std::thread::scope(|s| {
-                for _ in 0..jobs {
-                    std::thread::Builder::new()
-                        .stack_size(WORKER_STACK)
-                        .spawn_scoped(s, || loop {
-                            let i = next.fetch_add(1, Ordering::Relaxed);
-                            if i >= seeds {
-                                break;
-                            }
-                            let plan = (fam.gen)(7, i, &gctx);
-                            let plan2 = (fam.gen)(7, i, &gctx);
-                            if plan != plan2 {
-                                eprintln!("nondeterministic generator: {} run {}", fam.name, i);
-                                bad.fetch_add(1, Ordering::Relaxed);
-                            }
-                            let a = exec::exec(&plan);
-                            let b = exec::exec(&plan);
-                            if a.trace_digest() != b.trace_digest() || a.sched.choices != b.sched.choices {
-                                eprintln!("nondeterministic execution: {} run {}", fam.name, i);
-                                bad.fetch_add(1, Ordering::Relaxed);
-                            }
-                            // explicit replay of the recorded schedule must follow the same path
-                            let mut p3 = plan.clone();
-                            p3.schedule = Schedule::Explicit { choices: a.sched.choices.clone() };
-                            let c = exec::exec(&p3);
-                            if c.trace_digest() != a.trace_digest() {
-                                eprintln!("recorded schedule does not replay: {} run {}", fam.name, i);
-                                bad.fetch_add(1, Ordering::Relaxed);
-                            }
-                            digests.lock().unwrap().insert(i, a.trace_digest());
-                        })
-                        .expect("spawn");
-                }
-            });
-            for (i, d) in digests.into_inner().unwrap() {
-                all.u64(i);
-                all.u64(d);
+    let _ = spec_list;
+    let mut children = Vec::new();
+    for k in 0..jobs {
+        let c = std::process::Command::new(std::env::current_exe().unwrap())
+            .args(["selftest", "det-shard", "--shard", &k.to_string(), "--of", &jobs.to_string(), "--seeds", &seeds.to_string()])
+            .stdout(std::process::Stdio::piped())
+            .spawn()
+            .expect("spawn det shard");
+        children.push(c);
+    }
+    let mut lines: Vec<String> = Vec::new();
+    let mut bad = 0u64;
+    for c in children {
+        let out = c.wait_with_output().expect("det shard");
+        if out.status.code() != Some(0) {
+            bad += 1;
+        }
+        for l in String::from_utf8_lossy(&out.stdout).lines() {
+            if l.starts_with("D ") {
+                lines.push(l.to_string());
+            } else if l.starts_with("BAD ") {
+                eprintln!("{l}");
+                bad += 1;
             }
         }
     }
-    println!("determinism: jobs={} seeds_per_family={} combined_digest={:016x} mismatches={}", jobs, seeds, all.0, bad.load(Ordering::Relaxed));
-    if bad.load(Ordering::Relaxed) == 0 {
+    lines.sort();
+    let mut all = Fnv::default();
+    for l in &lines {
+        all.bytes(l.as_bytes());
+    }
+    println!("determinism: jobs={} seeds_per_family={} runs={} combined_digest={:016x} mismatches={}", jobs, seeds, lines.len(), all.0, bad);
+    if bad == 0 {
         0
     } else {
         2
     }
 }
 
+pub fn selftest_det_shard(spec_list: &[CheckSpec], seeds: u64, shard: u64, of: u64) -> i32 {
+    let gctx = GenCtx { tier_thorough: false, avail: &GEN_LEVELS };
+    let handle = std::thread::Builder::new()
+        .stack_size(WORKER_STACK)
+        .spawn({
+            let fams: Vec<(String, Family)> = spec_list.iter().flat_map(|s| s.families.iter().map(|f| (s.prop.to_string(), f.clone()))).collect();
+            move || {
+                let mut n = 0u64;
+                for (prop, fam) in &fams {
+                    // process-level families (real b3sum) are deterministic by construction of their oracles, and slow: skip
+                    if prop == "C12" || fam.name == "c13-e2e" || fam.name == "c08-bigmmap" || fam.name == "c18-streams" || fam.name == "c11-bigwrite" {
+                        continue;
+                    }
+                    let mut i = shard;
+                    while i < seeds {
+                        n += 1;
+                        let plan = (fam.gen)(7, i, &gctx);
+                        let plan2 = (fam.gen)(7, i, &gctx);
+                        if plan != plan2 {
+                            println!("BAD nondeterministic generator: {} run {}", fam.name, i);
+                        }
+                        let a = exec::exec(&plan);
+                        let b = exec::exec(&plan);
+                        if a.trace_digest() != b.trace_digest() || a.sched.choices != b.sched.choices {
+                            println!("BAD nondeterministic execution: {} run {}", fam.name, i);
+                        }
+                        let mut p3 = plan.clone();
+                        p3.schedule = Schedule::Explicit { choices: a.sched.choices.clone() };
+                        let c = exec::exec(&p3);
+                        if c.trace_digest() != a.trace_digest() {
+                            println!("BAD recorded schedule does not replay: {} run {}", fam.name, i);
+                        }
+                        println!("D {} {} {:016x}", fam.name, i, a.trace_digest());
+                        i += of;
+                    }
+                }
+                n
+            }
+        })
+        .expect("spawn");
+    match handle.join() {
+        Ok(_) => 0,
+        Err(_) => 2,
+    }
+}
 
 /// Merge the part files of one property (several build flavours / engines) into the final evidence
 /// file, and compare the per-run digests between parts: the same seeded plan must give the same
